@@ -723,3 +723,27 @@ Definition prop_drop_ok (m : mode) (n : nat) (script : list pscript) (cnt : nat)
   | Some its => list_eqb item_eqb obs_items_ (firstn cnt its)
   | None => true
   end.
+
+(* ---- client-side timeout racing the fetch (tie: cases with a scripted T) -------------------
+   The request timeout of a page is a wall-clock bound: when the machine stalls it can strike
+   an attempt EARLIER than the scripted one -- any attempt of the page that holds the T, or of a
+   page before it.  [early_timeouts script] enumerates those environments: the same script with
+   the page's fault list cut after i faults and a timeout there.  The driver accepts a T case
+   if one of them explains the observation exactly. *)
+Definition with_timeout (i : nat) (ps : pscript) : pscript :=
+  mk_ps (ps_plan ps) (firstn i (ps_faults ps) ++ [FTimeout]) (ps_resp ps).
+Definition is_timeout (f : fault) : bool :=
+  match f with FTimeout => true | _ => false end.
+Fixpoint early_timeouts (script : list pscript) : list (list pscript) :=
+  match script with
+  | [] => []
+  | ps :: rest =>
+      map (fun i => with_timeout i ps :: rest) (seq 0 (S (List.length (ps_faults ps)))) ++
+      (if existsb is_timeout (ps_faults ps) then [] else map (cons ps) (early_timeouts rest))
+  end.
+Definition ctor_fails (m : mode) (script : list pscript) : bool :=
+  match snd (seq_run m script) with OFail _ => true | _ => false end.
+Definition accept_full_timeout (m : mode) (script : list pscript) (ctor : bool)
+           (obs_items_ : list item) (obs_keys : list (nat * option pstate)) : bool :=
+  existsb (fun sc => accept_full m sc obs_items_ obs_keys && Bool.eqb ctor (ctor_fails m sc))
+          (early_timeouts script).
